@@ -332,43 +332,84 @@ def _ckey(e):
 
 
 def _table_counters(run: Run, tt):
-    """table-driven form: T = {"(": (slot, +1), ")": (slot, -1), ..}; under `x.string in T`: which, delta = T[x.string]; D[which] += delta"""
+    """table-driven form: T = {"(": (slot, +1), ")": (slot, -1), ..} (a local or a module-level literal nothing writes);
+    `which, delta = T[x.string]` under `x.string in T`, or `e = T.get(x.string)` / `which, delta = e` under
+    `e is not None`; then `D[which] += delta`."""
     from ..terms import TermCtx as _T
 
     inc, dec = {}, {}
-    tables = {}
+    m = run.model
+    fa = _T(m, max_depth=1).analysis(tt)
+
+    def literal(d):
+        ent = {}
+        if not isinstance(d, ast.Dict):
+            return None
+        for k, v in zip(d.keys, d.values):
+            if not (isinstance(k, ast.Constant) and isinstance(k.value, str) and isinstance(v, ast.Tuple) and len(v.elts) == 2):
+                return None
+            try:
+                slot, dl = ast.literal_eval(v.elts[0]), ast.literal_eval(v.elts[1])
+            except Exception:
+                return None
+            if not (isinstance(slot, int) and dl in (1, -1)):
+                return None
+            ent[k.value] = (slot, dl)
+        return ent or None
+
+    def table_of(name):
+        loc = [n for n in own_nodes(tt) if isinstance(n, (ast.Assign, ast.AnnAssign)) and isinstance((n.targets[0] if isinstance(n, ast.Assign) else n.target), ast.Name) and (n.targets[0] if isinstance(n, ast.Assign) else n.target).id == name]
+        stores = sum(1 for n in own_nodes(tt) if isinstance(n, ast.Name) and n.id == name and isinstance(n.ctx, ast.Store))
+        if loc:
+            return literal(loc[0].value) if len(loc) == 1 and stores == 1 else None
+        lit = tt.module.assigns.get(name)
+        if lit is None:
+            return None
+        for f in m.funcs.values():
+            if f.module is tt.module:
+                for n in own_nodes(f):
+                    if isinstance(n, ast.Name) and n.id == name and isinstance(n.ctx, (ast.Store, ast.Del)):
+                        return None
+                    if isinstance(n, ast.Subscript) and isinstance(n.ctx, (ast.Store, ast.Del)) and isinstance(n.value, ast.Name) and n.value.id == name:
+                        return None
+        return literal(lit)
+
+    def single_def(name):
+        ds = [a for a in own_nodes(tt) if isinstance(a, ast.Assign) and len(a.targets) == 1 and any(isinstance(x, ast.Name) and x.id == name for x in ast.walk(a.targets[0]))]
+        st = sum(1 for a in own_nodes(tt) if isinstance(a, ast.Name) and a.id == name and isinstance(a.ctx, ast.Store))
+        return ds[0] if len(ds) == 1 and st == 1 else None
+
     for n in own_nodes(tt):
-        if isinstance(n, ast.Assign) and len(n.targets) == 1 and isinstance(n.targets[0], ast.Name) and isinstance(n.value, ast.Dict):
-            ent = {}
-            for k, v in zip(n.value.keys, n.value.values):
-                if isinstance(k, ast.Constant) and isinstance(k.value, str) and isinstance(v, ast.Tuple) and len(v.elts) == 2:
-                    try:
-                        slot, d = ast.literal_eval(v.elts[0]), ast.literal_eval(v.elts[1])
-                    except Exception:
-                        continue
-                    if isinstance(slot, int) and d in (1, -1):
-                        ent[k.value] = (slot, d)
-            if len(ent) == len(n.value.keys) and ent:
-                tables[n.targets[0].id] = ent
-    if len(tables) != 1:
-        return inc, dec
-    tname, ent = next(iter(tables.items()))
-    if sum(1 for n in own_nodes(tt) if isinstance(n, ast.Name) and n.id == tname and isinstance(n.ctx, ast.Store)) != 1:
-        return inc, dec
-    fa = _T(run.model, max_depth=1).analysis(tt)
-    for n in own_nodes(tt):
-        if isinstance(n, ast.AugAssign) and isinstance(n.op, ast.Add) and isinstance(n.target, ast.Subscript) and isinstance(n.target.value, ast.Name) and isinstance(n.target.slice, ast.Name) and isinstance(n.value, ast.Name):
-            which, delta, lst = n.target.slice.id, n.value.id, n.target.value.id
-            unpack = [a for a in own_nodes(tt) if isinstance(a, ast.Assign) and len(a.targets) == 1 and isinstance(a.targets[0], ast.Tuple) and [getattr(e, "id", None) for e in a.targets[0].elts] == [which, delta] and isinstance(a.value, ast.Subscript) and isinstance(a.value.value, ast.Name) and a.value.value.id == tname and "string" in ast.unparse(a.value.slice)]
-            stores = [a for a in own_nodes(tt) if isinstance(a, ast.Name) and a.id in (which, delta) and isinstance(a.ctx, ast.Store)]
-            if len(unpack) != 1 or len(stores) != 2:
+        if not (isinstance(n, ast.AugAssign) and isinstance(n.op, ast.Add) and isinstance(n.target, ast.Subscript) and isinstance(n.target.value, ast.Name) and isinstance(n.target.slice, ast.Name) and isinstance(n.value, ast.Name)):
+            continue
+        which, delta, lst = n.target.slice.id, n.value.id, n.target.value.id
+        un = single_def(which)
+        if un is None or un is not single_def(delta) or not (isinstance(un.targets[0], ast.Tuple) and [getattr(e, "id", None) for e in un.targets[0].elts] == [which, delta]):
+            continue
+        look = un.value
+        via = None
+        if isinstance(look, ast.Name):  # e = T.get(key); which, delta = e
+            via = look.id
+            d0 = single_def(via)
+            if d0 is None or not isinstance(d0.targets[0], ast.Name):
                 continue
-            key = ast.unparse(unpack[0].value.slice)
-            guarded = any(pol and isinstance(a, ast.Compare) and len(a.ops) == 1 and isinstance(a.ops[0], ast.In) and ast.unparse(a.left) == key and isinstance(a.comparators[0], ast.Name) and a.comparators[0].id == tname for a, pol in Facts(fa, n).atoms)
-            if not guarded or not fa.cfg.dominates(fa.cfg.node_of(unpack[0]), fa.cfg.node_of(n)):
-                continue
-            for br, (slot, d) in ent.items():
-                (inc if d == 1 else dec)[br] = f"{lst}[{slot}]"
+            look = d0.value
+        tname = key = None
+        guarded = False
+        atoms = Facts(fa, n).atoms
+        if isinstance(look, ast.Subscript) and isinstance(look.value, ast.Name):
+            tname, key = look.value.id, ast.unparse(look.slice)
+            guarded = any(pol and isinstance(a, ast.Compare) and len(a.ops) == 1 and isinstance(a.ops[0], ast.In) and ast.unparse(a.left) == key and isinstance(a.comparators[0], ast.Name) and a.comparators[0].id == tname for a, pol in atoms)
+        elif isinstance(look, ast.Call) and isinstance(look.func, ast.Attribute) and look.func.attr == "get" and isinstance(look.func.value, ast.Name) and len(look.args) == 1 and not look.keywords and via is not None:
+            tname, key = look.func.value.id, ast.unparse(look.args[0])
+            guarded = any(isinstance(a, ast.Compare) and len(a.ops) == 1 and isinstance(a.left, ast.Name) and a.left.id == via and isinstance(a.comparators[0], ast.Constant) and a.comparators[0].value is None and ((isinstance(a.ops[0], ast.IsNot) and pol) or (isinstance(a.ops[0], ast.Is) and not pol)) for a, pol in atoms)
+        if tname is None or "string" not in key or not guarded:
+            continue
+        ent = table_of(tname)
+        if ent is None or not fa.cfg.dominates(fa.cfg.node_of(un), fa.cfg.node_of(n)):
+            continue
+        for br, (slot, d) in ent.items():
+            (inc if d == 1 else dec)[br] = f"{lst}[{slot}]"
     return inc, dec
 
 
